@@ -7,6 +7,7 @@ CONSTANTS
   Kv <- None
   Changes <- C2
   MaxPend = 3
+  NoSpace <- None
   Dev <- None
   Budget <- Bg
   GenDepth = 30
